@@ -140,8 +140,12 @@ class Session:
         from xdeps.general import _print
         _print.suppress = True
         self.xd = xd
+        spec = dict(spec, values=list(spec["values"]))      # the job of THIS session: "Retarget" changes its target values
         self.spec = spec
         self.oracle = Oracle(spec, twin)
+        self.epochs = [list(spec["values"])]                 # target values per epoch
+        self.row_epoch_marks = []                            # log lengths at which an epoch began (reset by clear_log)
+        self.base_epoch = 0
         self.ncalls = 0
         self.fault = spec.get("fault")          # None | [k, "once"|"always"]: the user's action raises at its k-th call
         self.d = {f"k{i}": float(v) for i, v in enumerate(spec["k0"])}
@@ -174,6 +178,19 @@ class Session:
         key = tuple(struct.pack("<d", float(x)) for x in k)
         return self.points.setdefault(key, len(self.points) + 1)
 
+    def ptn(self, k):
+        """point identity for OptProtoTrace.tla: with non-unit knob weights the knobs -> x -> knobs round trip of an evaluation moves a
+        knob by an ulp, so vectors within 4 ulp per coordinate are one point there (unit weights: exact)"""
+        k = [float(x) for x in k]
+        if not hasattr(self, "npoints"):
+            self.npoints = []
+        tol = 0 if self.spec["unit_weights"] else 4
+        for i, q in enumerate(self.npoints):
+            if all(ulps(a, b) <= tol for a, b in zip(k, q)):
+                return i + 1
+        self.npoints.append(k)
+        return len(self.npoints)
+
     def flags(self):
         return ([i + 1 for i, v in enumerate(self.opt.vary) if v.active], [i + 1 for i, t in enumerate(self.opt.targets) if t.active])
 
@@ -193,7 +210,7 @@ class Session:
 
     def state(self):
         va, ta = self.flags()
-        return {"cur": self.pt(self.knobs()), "vact": va, "tact": ta, "loglen": self.loglen()}
+        return {"cur": self.pt(self.knobs()), "curn": self.ptn(self.knobs()), "vact": va, "tact": ta, "loglen": self.loglen()}
 
     def rows(self, start, first_kind):
         """abstract rows for log entries start.. (0-based), measured by the oracle"""
@@ -223,7 +240,7 @@ class Session:
             else:
                 same = list(range(1, len(k) + 1))
                 ratio = [0] * len(k)
-            out.append({"pt": self.pt(k), "va": va, "ta": ta, "kind": kind, "penf": open_, "tol": bool(self.oracle.within_tol(k, ta)),
+            out.append({"pt": self.pt(k), "ptn": self.ptn(k), "va": va, "ta": ta, "kind": kind, "penf": open_, "tol": bool(self.oracle.within_tol(k, ta)),
                         "inlim": self.oracle.inlim(k), "same": same, "ratio": ratio, "penok": bool(penok), "tarok": tarok, "knobs": k})
         # penalties -> dense ranks with a relative tie tolerance
         vals = sorted(r["penf"] for r in out)
@@ -236,6 +253,58 @@ class Session:
             r["pen"] = next(rk for v, rk in ranks if v == r["penf"])
             del r["penf"]
         return out
+
+    def epoch_of_row(self, i):
+        return self.base_epoch + sum(1 for m in self.row_epoch_marks if m <= i)
+
+    def environment(self, events, init):
+        """what OptProto.tla needs to know about the points this session visited, measured by the oracle (never read from the optimizer)"""
+        spec, nt = self.spec, self.spec["nt"]
+        vecs = list(self.npoints)
+        masks = {frozenset(init["tact"])}
+        for e in events:
+            masks.add(frozenset(e["af"]["tact"]))
+            masks.add(frozenset(e["af"]["tact"]) | frozenset(e.get("dis_t", [])))
+            for r in e["rows"]:
+                masks.add(frozenset(r["ta"]))
+        pens, tolts = [], []
+        for values in self.epochs:
+            orc = Oracle(dict(spec, values=values), self.oracle.twin)
+            vals = {}
+            for pi, k in enumerate(vecs):
+                for m in masks:
+                    vals[(pi, m)] = orc.penalty(k, m)
+            order = sorted(set(vals.values()))
+            rank, cur = {}, 0
+            for i, v in enumerate(order):
+                if i > 0 and abs(v - order[i - 1]) > 1e-9 * max(1.0, abs(v)):
+                    cur += 1
+                rank[v] = cur
+            pen = []
+            for pi in range(len(vecs)):
+                row = [-1] * (2 ** nt)
+                for m in masks:
+                    row[sum(2 ** (t - 1) for t in m)] = rank[vals[(pi, m)]]
+                pen.append(row)
+            pens.append(pen)
+            tolt = []
+            for k in vecs:
+                r = orc.residuals(k)
+                tolt.append([i + 1 for i in range(nt) if abs(r[i]) < spec["tols"][i]])
+            tolts.append(tolt)
+        coord, ids = [], [[] for _ in range(spec["nk"])]
+        ctol = 0 if spec["unit_weights"] else 4
+        for k in vecs:
+            row = []
+            for j in range(spec["nk"]):
+                hit = next((i for i, v in enumerate(ids[j]) if ulps(v, k[j]) <= ctol), None)
+                if hit is None:
+                    ids[j].append(k[j])
+                    hit = len(ids[j]) - 1
+                row.append(hit + 1)
+            coord.append(row)
+        return {"nk": spec["nk"], "nt": nt, "npts": len(vecs), "nep": len(self.epochs), "start": init["curn"], "nmax": spec["n_steps_max"],
+                "restore": bool(spec["restore"]), "coord": coord, "inlimk": [self.oracle.inlim(k) for k in vecs], "tolt": tolts, "pen": pens}
 
     # -- resolving enable/disable arguments independently ------------------------------------------------
     def resolve(self, what):
@@ -297,9 +366,11 @@ class Session:
                 else:
                     it = {"first": 0, "last": before - 1, "mid": before // 2}[how]
                     fn = lambda: opt.reload(iteration=it)
+                ev["it"] = -1 if it is None else int(it)
                 if it is not None:
                     src = self.rows(it, "tag")[0] if it < before else None
                     ev["row"] = {"va": src["va"], "ta": src["ta"]} if src else {"va": [], "ta": []}
+                    ev["_src_epoch_same"] = self.epoch_of_row(it) == len(self.epochs) - 1
                     ev["_src_knobs"] = [float(x) for x in opt._log["knobs"][it]]
                     ev["_src_pen"] = float(opt._log["penalty"][it])
                     ev["_src_tar"] = [float(x) for x in opt._log["targets"][it]]
@@ -310,7 +381,21 @@ class Session:
                 self.user_tags.append(name)
                 fn = lambda: opt.tag(name)
             elif c["ev"] == "ClearLog":
-                fn = opt.clear_log
+                def fn():
+                    try:
+                        opt.clear_log()
+                    finally:
+                        self.base_epoch, self.row_epoch_marks = len(self.epochs) - 1, []
+            elif c["ev"] == "Retarget":
+                # the user changes the job between calls (what solve_homotopy does between its sub-solves): target j gets a new value
+                j = c["j"] % spec["nt"]
+
+                def fn():
+                    new = float(opt.targets[j].value) + 0.25 * c["delta"]
+                    opt.targets[j].value = new
+                    spec["values"][j] = new
+                    self.epochs.append(list(spec["values"]))
+                    self.row_epoch_marks.append(self.loglen())
             elif c["ev"] in ("Enable", "Disable"):
                 kw, v, t = self.resolve(c["what"])
                 ev["v"], ev["t"] = v, t
@@ -327,7 +412,7 @@ class Session:
             ev["exc_text"] = str(ex)[:160]
         after = self.loglen()
         start = 0 if c["ev"] == "ClearLog" else min(before, after)
-        ev["rows"] = self.rows(start, first_kind) if c["ev"] not in ("Enable", "Disable") else []
+        ev["rows"] = self.rows(start, first_kind) if c["ev"] not in ("Enable", "Disable", "Retarget") else []
         ev["log_ok"] = self.log_ok()
         ev["af"] = self.state()
         k = self.knobs()
@@ -348,7 +433,8 @@ class Session:
             if "_src_knobs" in ev and ev["out"] == "ok":
                 ev["reload_ulp"] = max(ulps(a, b) for a, b in zip(k, ev["_src_knobs"]))
                 pen_now = self.oracle.penalty(k, ta)
-                ev["pen_same"] = bool(abs(pen_now - ev["_src_pen"]) <= 1e-9 * max(1.0, abs(pen_now)) * (1 if spec["unit_weights"] else 1e3))
+                ev["pen_same"] = bool(abs(pen_now - ev["_src_pen"]) <= 1e-9 * max(1.0, abs(pen_now)) * (1 if spec["unit_weights"] else 1e3)) \
+                    or not ev["_src_epoch_same"]          # the penalty of a row logged before the targets were changed is not reproduced (its knobs and outputs are)
                 ev["tar_same"] = bool(np.allclose(self.oracle.outputs(k), ev["_src_tar"], rtol=1e-9, atol=1e-9))
             else:
                 ev.update(reload_ulp=0, pen_same=True, tar_same=True)
@@ -389,7 +475,7 @@ def run_job(spec, calls, twin=True):
         readable.append({k: v for k, v in ev.items() if k not in ("rows",)} | {"rows": [{"kind": r["kind"], "knobs": r["knobs"], "va": r["va"], "ta": r["ta"],
                          "tol": r["tol"], "pen": r["pen"], "ratio": r["ratio"]} for r in ev["rows"]]})
         events.append(strip(ev))
-    return {"nk": spec["nk"], "init": init, "events": events}, readable
+    return {"nk": spec["nk"], "init": init, "events": events, "env": s.environment(events, init)}, readable
 
 
 def worker(job, shard, nshards):
